@@ -1088,5 +1088,19 @@ func diffKinds(want, got map[string][]string) string {
 		ks = append(ks, k)
 	}
 	sort.Strings(ks)
+	if len(ks) > 2 {
+		// many headers at once (the whole head was lost or replaced): one fingerprint per set of
+		// actions, not one per combination of header names
+		acts := map[string]bool{}
+		for _, k := range ks {
+			acts[k[:strings.Index(k, ":")]] = true
+		}
+		var as []string
+		for a := range acts {
+			as = append(as, a)
+		}
+		sort.Strings(as)
+		return "many:" + strings.Join(as, "+")
+	}
 	return strings.Join(ks, ",")
 }
